@@ -29,12 +29,13 @@ Definition spec_expect (st : sstate) (o : obs) : N :=
   | OContains ip _ => code_of_bool (spec_contains_st st ip)
   end.
 
-(** what the model returns in state [s], and the state it moves to *)
+(** what the model returns in state [s], and the state it moves to; a panic of the model
+    is code 2 (and the state stays: nothing after a panic is meaningful) *)
 Definition model_step (s : state) (o : obs) : state * N :=
   match o with
-  | OAdd c _ => let '(s', r) := add s c in (s', code_of_result r)
-  | ORemove c _ => let '(s', r) := remove s c in (s', code_of_result r)
-  | OContains ip _ => (s, code_of_bool (contains s ip))
+  | OAdd c _ => match add s c with Some (s', r) => (s', code_of_result r) | None => (s, 2) end
+  | ORemove c _ => match remove s c with Some (s', r) => (s', code_of_result r) | None => (s, 2) end
+  | OContains ip _ => (s, match contains s ip with Some b => code_of_bool b | None => 2 end)
   end.
 
 Record acc := mkAcc {
